@@ -6,6 +6,7 @@ def register(reg):
     register_hasher_next(reg)
     register_hasher_init(reg)
     register_filehasher(reg)
+    register_filehasher_next(reg)
     C = reg.contract
 
     C("torrentfile.hasher.merkle_root",
@@ -187,3 +188,51 @@ def register_filehasher(reg):
            "(len(self.layer_hashes) < 2 * len(old(self.layer_hashes)) or len(old(self.layer_hashes)) == 1 and len(self.layer_hashes) == 1))"),
       ],
       notes="with L2 (merkle decomposition, Lean) this is the BEP 52 root over all 16 KiB leaves padded with zero hashes")
+
+
+def register_filehasher_next(reg):
+    C = reg.contract
+    B = 16384
+    NL = "len(leaves(D))"
+    C("torrentfile.hasher.FileHasher.__next__",
+      props=["C02", "C03", "C10"],
+      params={"self": FH},
+      merge_ifs=False,
+      requires=["self.piece_length >= 16384 and is_pow2(self.piece_length)", "self.amount * 16384 == self.piece_length",
+                "self.amount >= 1 and is_pow2(self.amount)", "file_open(self.current) or self.end"],
+      returns="any",
+      ensures=[
+          ("C02", "consumes_the_next_piece_of_the_file",
+           "D + file_tail(self.current) == old(file_tail(self.current)) and 0 < len(D) <= self.piece_length and "
+           "(len(D) == self.piece_length or file_at_eof(self.current))"),
+          ("C02", "layer_hash_is_the_merkle_root_of_the_piece_leaves_with_zero_hash_padding",
+           "layer_hash == mroot(blocks) and blocks == cat(leaves(D), zero_digests(len(blocks) - " + NL + "))"),
+          ("C02", "padding_amount_follows_bep52",
+           "implies(" + NL + " == self.amount, len(blocks) == self.amount) and "
+           "implies(" + NL + " < self.amount and len(old(self.layer_hashes)) > 0, len(blocks) == self.amount) and "
+           "implies(" + NL + " < self.amount and len(old(self.layer_hashes)) == 0, is_pow2(len(blocks)) and " + NL + " <= len(blocks) < 2 * " + NL + ")"),
+          ("C03", "hybrid_v1_piece_is_sha1_of_the_piece_zero_padded_only_when_padding_is_declared",
+           "implies(self.hybrid, piece == sha1(D + zeros((self.piece_length - len(D)) if self.pad else 0)) and "
+           "self.pieces == cat(old(self.pieces), [piece]))"),
+          ("C03", "padding_entry_describes_exactly_the_zero_extension",
+           "implies(self.hybrid and self.pad and len(D) < self.piece_length, self.padding_file['length'] == self.piece_length - len(D) "
+           "and self.padding_file['attr'] == 'p')"),
+      ],
+      raises={"StopIteration": {}},
+      loops={0: {"index": "_i0",
+                 "ghost_init": {"D": "b''"},
+                 "ghost_step": {"D": "D + last_read()"},
+                 "assume_in_body": ["leaves_step(D, last_read())"],
+                 "invariant": [
+                     ("stream", "D + file_tail(self.current) == old(file_tail(self.current))"),
+                     ("blocks_are_the_leaves", "blocks == leaves(D)"),
+                     ("counters", "plength == self.piece_length - len(D) and total == len(D) and len(blocks) == _i0 and not self.end"),
+                     ("full_blocks_until_eof", "len(D) == 16384 * _i0 or (len(D) < 16384 * _i0 and file_at_eof(self.current))"),
+                     ("hybrid_accumulator", "implies(self.hybrid, hash_acc(piece) == D)"),
+                     ("frame", "file_open(self.current) and self.amount == old(self.amount) and self.piece_length == old(self.piece_length) "
+                               "and self.hybrid == old(self.hybrid) and self.pad == old(self.pad) and self.layer_hashes == old(self.layer_hashes) "
+                               "and self.pieces == old(self.pieces)"),
+                 ],
+                 "modifies": ["block", "piece", "self.current", "self.end"]}},
+      notes="one call = one piece: up to piece_length/16 KiB blocks are read, their SHA-256 leaves padded with zero hashes per BEP 52 and "
+            "reduced by merkle_root; with L2 the per-piece roots and _calculate_root give the BEP 52 pieces root")
